@@ -164,10 +164,14 @@ impl StaticsContext {
         iface: &Rc<InterfaceDef>,
     ) -> Option<Rc<InterfaceImpl>> {
         // TODO: cache this using hashmap
-        let impl_list = self.interface_impls[iface].clone();
-        impl_list
-            .into_iter()
-            .find(|imp| ty.fits_impl_ty(&imp.typ.to_solved_type(self).unwrap()))
+        // (an interface without implementations has no entry; an implementation for a type that
+        // could not be resolved has already been reported)
+        let impl_list = self.interface_impls.get(iface).cloned().unwrap_or_default();
+        impl_list.into_iter().find(|imp| {
+            imp.typ
+                .to_solved_type(self)
+                .is_some_and(|impl_ty| ty.fits_impl_ty(&impl_ty))
+        })
     }
 
     pub(crate) fn get_free_function_decl(&self, name: &str) -> Rc<FuncDef> {
